@@ -7,11 +7,13 @@ import MoneroModel.Drv.C03
 import MoneroModel.Drv.C15
 import MoneroModel.Drv.C16
 import MoneroModel.Drv.C12
+import MoneroModel.Drv.C13
+import MoneroModel.Drv.C17
 /-! Line-protocol driver: one operation per input line, one result line per operation.
 Result line = `<model result>\t<spec result>` (`-` when the operation has no model / no spec side).
 Each property contributes a step function in `MoneroModel/Drv/Cxx.lean`. -/
 
-def steps : List Step := [Drv.stepC14, Drv.stepC18, Drv.stepC20, Drv.stepCodec, Drv.stepC06, Drv.stepC03, Drv.stepC15, Drv.stepC16, Drv.stepC12]
+def steps : List Step := [Drv.stepC14, Drv.stepC18, Drv.stepC20, Drv.stepCodec, Drv.stepC06, Drv.stepC03, Drv.stepC15, Drv.stepC16, Drv.stepC12, Drv.stepC13, Drv.stepC17]
 
 def step (toks : List String) : String × String :=
   match steps.findSome? (fun f => f toks) with
